@@ -38,7 +38,8 @@ def elem_attr(attr):
 
 class Tracer:
     def __init__(self, fn, block, env0=None, elem_name="elem", skip_asserts=True, opaque_calls=None, month_classes=False, iterations=1,
-                 elem_attrs=None):
+                 elem_attrs=None, primitives=()):
+        self.primitives = set(primitives)   # functions the rules address by name: never inlined as wrappers
         self.month_classes = month_classes
         self.iterations = iterations
         self.elem_attrs = dict(elem_attrs or {})
@@ -108,6 +109,29 @@ class Tracer:
                     return Path((f"ret:{d}@{len(events)}",))
                 name = d or norm_src(f)
                 short = name.split(".")[-1]
+                if self._pure_selector(interp, d):
+                    return NotImplemented   # a repository function that only reads its arguments and returns: followed by the interpreter
+                wrapped = self._wrapper(interp, d, a, kw)
+                if wrapped is not None:
+                    # a repository function that only passes the element on to other functions: its body is part of this pass
+                    callee, elem_param = wrapped
+                    params = [x.arg for x in callee.args.args]
+                    cenv = dict(zip(params, a))
+                    cenv.update(kw)
+                    prev = state["elemvar"]
+                    state["elemvar"] = elem_param
+                    state["depth"] = state.get("depth", 0) + 1
+                    try:
+                        self._exec(interp, callee.body, cenv, events, state)
+                        rv = None
+                    except _Return as r_:
+                        rv = r_.value
+                        if events and events[-1].kind == "return":
+                            events.pop()   # the wrapper's own return is not an exit of the traced block
+                    finally:
+                        state["elemvar"] = prev
+                        state["depth"] -= 1
+                    return rv
                 events.append(Event("call", short, a, kw, node, False, state["pass"]))
                 n = arity_of(node)
                 if n:
@@ -197,6 +221,52 @@ class Tracer:
                 continue
             it.exec(st, env)
 
+    _BUILTIN_OK = ("len", "min", "max", "abs", "round", "float", "int", "str", "bool", "isinstance", "range", "enumerate", "zip", "sum", "tuple", "list")
+
+    def _pure_selector(self, interp, d):
+        """the call resolves to a repository function without self whose body only reads: no stores to attributes/subscripts, no calls
+        other than a few builtins, no loops other than over names/literals, no global/nonlocal"""
+        res = getattr(type(interp), "resolver", None)
+        if not d or res is None:
+            return False
+        callee = res(d) or res(d.split(".")[-1])
+        if callee is None or callee is self.fn or callee.name in self.primitives:
+            return False
+        for n in ast.walk(callee):
+            if isinstance(n, (ast.Global, ast.Nonlocal, ast.While, ast.With, ast.Try, ast.Yield, ast.YieldFrom, ast.Lambda, ast.AugAssign, ast.Delete)):
+                return False
+            if isinstance(n, ast.Call) and not (isinstance(n.func, ast.Name) and n.func.id in self._BUILTIN_OK):
+                return False
+            if isinstance(n, (ast.Attribute, ast.Subscript)) and isinstance(n.ctx, (ast.Store, ast.Del)):
+                return False
+            if isinstance(n, ast.FunctionDef) and n is not callee:
+                return False
+        return any(isinstance(n, ast.Return) and n.value is not None for n in ast.walk(callee))
+
+    def _wrapper(self, interp, d, a, kw):
+        """(FunctionDef, element parameter) when the call passes the current element to a repository function whose body hands that
+        same parameter on to further calls (an orchestrating helper such as 'run the month-end steps for this animal'); else None"""
+        res = getattr(type(interp), "resolver", None)
+        if not d or res is None or kw:
+            return None
+        callee = res(d) or res(d.split(".")[-1])
+        if callee is None or callee is self.fn or callee.name in self.primitives:
+            return None
+        params = [x.arg for x in callee.args.args]
+        if len(params) != len(a) or callee.args.vararg or callee.args.kwarg:
+            return None
+        elems = [p_ for p_, v_ in zip(params, a) if isinstance(v_, ElemObj)]
+        if len(elems) != 1:
+            return None
+        ep = elems[0]
+        forwards = 0
+        for c in ast.walk(callee):
+            if isinstance(c, ast.Call) and c is not callee and any(isinstance(x, ast.Name) and x.id == ep for x in c.args):
+                inner = dotted(c.func) or ""
+                if res(inner) is not None or res(inner.split(".")[-1]) is not None:
+                    forwards += 1
+        return (callee, ep) if forwards >= 2 else None
+
     def _on_elem(self, t, state):
         base = t
         while isinstance(base, (ast.Subscript, ast.Attribute)):
@@ -261,8 +331,8 @@ def install_elem_semantics(it):
     it.getattr = getattr_
 
 
-def trace_block(fn, block, env0=None, month_classes=False, iterations=1, elem_attrs=None):
-    t = Tracer(fn, block, env0, month_classes=month_classes, iterations=iterations, elem_attrs=elem_attrs)
+def trace_block(fn, block, env0=None, month_classes=False, iterations=1, elem_attrs=None, primitives=()):
+    t = Tracer(fn, block, env0, month_classes=month_classes, iterations=iterations, elem_attrs=elem_attrs, primitives=primitives)
     # ElemObj attribute semantics are installed per interpreter inside explore: wrap run
     orig_run = t.run
 
